@@ -234,7 +234,7 @@ PROPS = {
         assumptions=["the listener is bound to an interface or the kernel reported the receiving one; the excluded point (link-level reply with no interface information) dereferences a nil control message in the code and is `panicNoIf` in the model"],
     ),
     "C02": dict(
-        engines=[("range", 2500, 40000), ("rangec", 1000, 15000)],
+        engines=[("range", 2500, 20000), ("rangec", 1000, 15000)],
         theorems=["C02_holds", "C02_progress"],
         modules=["CoreDhcp.Props.C02"],
         facts=["F1"],
@@ -243,7 +243,7 @@ PROPS = {
                      "sequential histories; concurrent schedules reduce to them by F1 (see C16)"],
     ),
     "C03": dict(
-        engines=[("range", 2500, 40000), ("rangec", 600, 8000)],
+        engines=[("range", 2500, 20000), ("rangec", 600, 8000)],
         theorems=["C03_holds", "C03_restore", "C03_D7_prefix_refuted", "C03_key_roundtrip", "C03_macString_injective", "C03_parse_macString", "C03_hkey_total", "C03_holds_concrete", "C03_restore_concrete"],
         modules=["CoreDhcp.Props.C03", "CoreDhcp.Props.C03Key"],
         trusted_base=[TB_BITSET, TB_SQLITE, TB_CLOCK],
